@@ -385,6 +385,10 @@ def _eq_samples():
             for time_axis in (False, True):
                 yield dict(dst=name, src_chunks=(7, 9), dst_chunks=(5, 6), dtype="int16", nodata=-1, time_axis=time_axis, masked=True, dst_nodata=100)
         yield dict(dst="aligned_shift", src_chunks=(7, 9), dst_chunks=(5, 6), dtype="uint8", nodata=0, time_axis=True, masked=True, dst_nodata=255)
+        # onto the source's OWN grid, default destination chunking: still a reprojection (nodata is re-mapped)
+        for time_axis in (False, True):
+            yield dict(dst="identical", src_chunks=(7, 9), dst_chunks=None, dtype="int16", nodata=-1, time_axis=time_axis, masked=True, dst_nodata=100)
+        yield dict(dst="identical", src_chunks=(23, 31), dst_chunks=None, dtype="uint8", nodata=0, time_axis=False, masked=True, dst_nodata=255)
         # several lazy reprojections of the SAME source evaluated in one graph must not interfere
         for vary in ("dst_nodata", "src_nodata", "resampling", "dst_geobox", "chunks"):
             yield dict(dst="partial_overlap", src_chunks=(7, 9), dst_chunks=(5, 6), dtype="int16", nodata=-1, time_axis=False, joint=vary)
